@@ -14,9 +14,15 @@ import (
 	"fmt"
 	"io"
 	"log"
+	"net"
+	"net/http"
 	"os"
+	"os/exec"
 	"os/signal"
 	"sort"
+	"strconv"
+	"strings"
+	"sync"
 	"syscall"
 	"time"
 	"znverif/hlib"
@@ -26,11 +32,22 @@ import (
 
 var commands = map[string]hlib.Handler{}
 
+// write ends of the FIFOs of all masters started by this process: they must stay reachable (a
+// garbage-collected *os.File is closed by its finalizer, the master would read EOF and log.Fatal)
+var keepOpen []*os.File
+
 func main() {
-	log.SetOutput(io.Discard)
+	if os.Getenv("C20_LOG") == "" {
+		log.SetOutput(io.Discard)
+	}
 	// a real-process worker (re-executed by the real spawnProcess)?
 	if os.Getenv(server.EnvPreforkChildKey) == server.EnvPreforkChildVal {
 		runRealWorker()
+		return
+	}
+	if len(os.Args) >= 6 && os.Args[1] == "realmaster" {
+		log.SetOutput(os.Stderr)
+		runRealMaster()
 		return
 	}
 	// SIGTERM is used to make StartMaster return at the end of a case: never let it kill us
@@ -167,6 +184,7 @@ func (r *runner) sendUpdate(pid int, st uint8, via string) {
 			w, err := server.OpenNamedPipeWriter(server.NewPipe(r.pipeID))
 			if err == nil {
 				r.pipeW = w // never closed: EOF would make the master log.Fatal
+				keepOpen = append(keepOpen, w)
 				os.Remove(fmt.Sprintf("/tmp/zinc-server-pipe-%s", r.pipeID))
 			}
 		}
@@ -407,6 +425,8 @@ func runScript(in map[string]interface{}) map[string]interface{} {
 	}
 	out["max_live"] = r.maxLive
 	out["final_live"] = len(r.live)
+	// (the FIFO is unlinked in sendUpdate once both ends are open; a FIFO whose read end the master
+	// has not opened yet must stay, or readNamedPipe would log.Fatal — the driver removes those afterwards)
 	// shutdown: blocked hook calls of the initial loop fail (StartMaster returns), others block for ever
 	close(shutdown)
 	for i := 0; i < 3; i++ {
@@ -430,6 +450,231 @@ func abortSpawn(origin string) (int, error) {
 	select {} // batch goroutines would log.Fatal on error: park them
 }
 
-func runRealWorker() {}
+// ---------------------------------------------------------------- real processes (OS-level smoke test)
 
-func runReal(in map[string]interface{}) map[string]interface{} { return map[string]interface{}{} }
+// the harness binary re-executed by the REAL spawnProcess as `<self> --child-worker`
+func runRealWorker() {
+	zns := server.NewZnPMServer(server.ZnPMServerConfig{})
+	zns.SetHandler(http.HandlerFunc(func(w http.ResponseWriter, r *http.Request) {
+		t0 := time.Now().UnixNano()
+		ms, _ := strconv.Atoi(r.URL.Query().Get("sleep"))
+		time.Sleep(time.Duration(ms) * time.Millisecond)
+		w.Header().Add("Content-Type", "text/plain")
+		w.WriteHeader(200)
+		w.Write([]byte(fmt.Sprintf("pid=%d token=%s start=%d end=%d", os.Getpid(), r.URL.Query().Get("token"), t0, time.Now().UnixNano())))
+	}))
+	zns.Start("")
+	os.Exit(1)
+}
+
+// `<self> realmaster <port> <init> <max> <timeout>`: the REAL master with REAL worker processes
+func runRealMaster() {
+	port, _ := strconv.Atoi(os.Args[2])
+	init_, _ := strconv.Atoi(os.Args[3])
+	max_, _ := strconv.Atoi(os.Args[4])
+	to, _ := strconv.Atoi(os.Args[5])
+	cfg := server.ZnPMServerConfig{InitProcs: init_, MaxProcs: max_, Timeout: to}
+	zns := server.NewZnPMServer(cfg)
+	err := zns.StartMaster(fmt.Sprintf("tcp://127.0.0.1:%d", port), cfg)
+	fmt.Fprintln(os.Stderr, "master returned:", err)
+}
+
+func childrenOf(ppid int) []int {
+	res := []int{}
+	ents, _ := os.ReadDir("/proc")
+	for _, e := range ents {
+		pid, err := strconv.Atoi(e.Name())
+		if err != nil {
+			continue
+		}
+		b, err := os.ReadFile(fmt.Sprintf("/proc/%d/stat", pid))
+		if err != nil {
+			continue
+		}
+		// pid (comm) state ppid ...
+		str := string(b)
+		k := strings.LastIndexByte(str, ')')
+		if k < 0 {
+			continue
+		}
+		f := strings.Fields(str[k+1:])
+		if len(f) < 2 || f[0] == "Z" {
+			continue // zombies are not live
+		}
+		if pp, _ := strconv.Atoi(f[1]); pp == ppid {
+			res = append(res, pid)
+		}
+	}
+	sort.Ints(res)
+	return res
+}
+
+func alive(pid int) bool {
+	b, err := os.ReadFile(fmt.Sprintf("/proc/%d/stat", pid))
+	if err != nil {
+		return false
+	}
+	str := string(b)
+	k := strings.LastIndexByte(str, ')')
+	f := strings.Fields(str[k+1:])
+	return len(f) > 0 && f[0] != "Z"
+}
+
+// {"init":..,"max":..,"timeout":..,"ops":[{"op":"req","sleep":ms,"n":k}|{"op":"wait","ms":..}|{"op":"kill"}|{"op":"settle","ms":max wait}]}
+func runReal(in map[string]interface{}) map[string]interface{} {
+	out := map[string]interface{}{}
+	l, err := net.Listen("tcp", "127.0.0.1:0")
+	if err != nil {
+		out["fatal"] = err.Error()
+		return out
+	}
+	port := l.Addr().(*net.TCPAddr).Port
+	l.Close()
+	init_, max_, to := num(in["init"]), num(in["max"]), num(in["timeout"])
+	cmd := exec.Command(os.Args[0], "realmaster", strconv.Itoa(port), strconv.Itoa(init_), strconv.Itoa(max_), strconv.Itoa(to))
+	var errb strings.Builder
+	cmd.Stderr = &errb
+	if err := cmd.Start(); err != nil {
+		out["fatal"] = err.Error()
+		return out
+	}
+	mpid := cmd.Process.Pid
+	exited := make(chan struct{})
+	go func() { cmd.Wait(); close(exited) }()
+	var mu sync.Mutex
+	maxSeen := 0
+	stop := make(chan struct{})
+	go func() {
+		for {
+			select {
+			case <-stop:
+				return
+			default:
+			}
+			n := len(childrenOf(mpid))
+			mu.Lock()
+			if n > maxSeen {
+				maxSeen = n
+			}
+			mu.Unlock()
+			time.Sleep(5 * time.Millisecond)
+		}
+	}()
+	settle := func(want int, d time.Duration) int {
+		dl := time.Now().Add(d)
+		n := 0
+		for time.Now().Before(dl) {
+			n = len(childrenOf(mpid))
+			if n >= want {
+				return n
+			}
+			time.Sleep(20 * time.Millisecond)
+		}
+		return n
+	}
+	out["started"] = settle(init_, 10*time.Second)
+	type resp struct {
+		Token  string `json:"token"`
+		Status int    `json:"status"`
+		Body   string `json:"body"`
+		Err    string `json:"err"`
+	}
+	var rmu sync.Mutex
+	resps := []resp{}
+	var wg sync.WaitGroup
+	tok := 0
+	steps := []interface{}{}
+	ops, _ := in["ops"].([]interface{})
+	for _, raw := range ops {
+		op := raw.(map[string]interface{})
+		switch op["op"].(string) {
+		case "req":
+			n := num(op["n"])
+			if n == 0 {
+				n = 1
+			}
+			for i := 0; i < n; i++ {
+				tok++
+				t := fmt.Sprintf("t%d", tok)
+				sl := num(op["sleep"])
+				wg.Add(1)
+				go func() {
+					defer wg.Done()
+					c := &http.Client{Timeout: 30 * time.Second, Transport: &http.Transport{DisableKeepAlives: true}}
+					r, err := c.Get(fmt.Sprintf("http://127.0.0.1:%d/?sleep=%d&token=%s", port, sl, t))
+					rp := resp{Token: t}
+					if err != nil {
+						rp.Err = "error"
+					} else {
+						b, _ := io.ReadAll(r.Body)
+						r.Body.Close()
+						rp.Status, rp.Body = r.StatusCode, string(b)
+					}
+					rmu.Lock()
+					resps = append(resps, rp)
+					rmu.Unlock()
+				}()
+			}
+		case "wait":
+			time.Sleep(time.Duration(num(op["ms"])) * time.Millisecond)
+		case "join":
+			wg.Wait()
+		case "kill":
+			cs := childrenOf(mpid)
+			if len(cs) > 0 {
+				syscall.Kill(cs[0], syscall.SIGKILL)
+			}
+		case "settle":
+			n := settle(init_, time.Duration(num(op["ms"]))*time.Millisecond)
+			steps = append(steps, map[string]interface{}{"settled": n, "master_alive": alive(mpid)})
+		}
+	}
+	wg.Wait()
+	close(stop)
+	mu.Lock()
+	out["max_seen"] = maxSeen
+	mu.Unlock()
+	out["steps"] = steps
+	out["master_alive"] = alive(mpid)
+	out["final_children"] = len(childrenOf(mpid))
+	rs := []interface{}{}
+	for _, r := range resps {
+		rs = append(rs, map[string]interface{}{"token": r.Token, "status": r.Status, "body": r.Body, "err": r.Err})
+	}
+	out["resps"] = rs
+	// tear down (the server never unlinks its FIFO: find it through the master's open files)
+	fifos := []string{}
+	if fds, err := os.ReadDir(fmt.Sprintf("/proc/%d/fd", mpid)); err == nil {
+		for _, fd := range fds {
+			if t, err := os.Readlink(fmt.Sprintf("/proc/%d/fd/%s", mpid, fd.Name())); err == nil && strings.HasPrefix(t, "/tmp/zinc-server-pipe-") {
+				fifos = append(fifos, t)
+			}
+		}
+	}
+	defer func() {
+		for _, f := range fifos {
+			os.Remove(f)
+		}
+	}()
+	kids := childrenOf(mpid)
+	syscall.Kill(mpid, syscall.SIGTERM)
+	select {
+	case <-exited:
+	case <-time.After(3 * time.Second):
+		syscall.Kill(mpid, syscall.SIGKILL)
+		<-exited
+	}
+	for _, k := range kids {
+		syscall.Kill(k, syscall.SIGKILL)
+	}
+	out["master_stderr"] = lastLines(errb.String(), 3)
+	return out
+}
+
+func lastLines(s string, n int) string {
+	ls := strings.Split(strings.TrimSpace(s), "\n")
+	if len(ls) > n {
+		ls = ls[len(ls)-n:]
+	}
+	return strings.Join(ls, " | ")
+}
